@@ -9,11 +9,12 @@ CONSTANTS
   MaxBlock = 0
   MaxTake = 2
   MaxCrash = 0
+  MaxStep = 0
   MaxZombie = 1
   MaxSnap = 0
   Keeps = {0}
   Eager = FALSE
-INVARIANTS TypeOK C18_IdContent C18_NoSkip C18_FirstOrder C18_LPSound I_DispAboveLP NoPanic
+INVARIANTS TypeOK C18_ControllerDispatches C18_IdContent C18_NoSkip C18_FirstOrder C18_LPSound I_DispAboveLP NoPanic
 PROPERTIES StepsOK
 VIEW MCView
 CHECK_DEADLOCK FALSE
